@@ -72,6 +72,11 @@ class _Future(Future):
                 return False
             if not self._me_cancel():
                 return False
+            if self.cancelled():
+                # A callback run while cancelling the underlying work has
+                # re-entered cancel() on this thread and completed it
+                # (waiters notified, callbacks invoked): nothing left to do.
+                return True
             out = super(_Future, self).cancel()
             if out:
                 self.set_running_or_notify_cancel()
